@@ -165,17 +165,19 @@ func NewTagsFromOSM(o osm.Tags) b6.Tags {
 func FillTagsFromOSM(t *b6.Tags, o osm.Tags) {
 	*t = (*t)[0:0]
 	for _, tag := range o {
-		key := tag.Key
-		if mapped, ok := osmTagMapping[tag.Key]; ok {
-			key = mapped
-		}
-		*t = append(*t, b6.Tag{Key: key, Value: b6.NewStringExpression(tag.Value)})
+		*t = append(*t, b6.Tag{Key: KeyForOSMKey(tag.Key), Value: b6.NewStringExpression(tag.Value)})
 	}
 }
 
 func KeyForOSMKey(key string) string {
 	if k, ok := osmTagMapping[key]; ok {
 		return k
+	}
+	if key == b6.PointTag || key == b6.PathTag {
+		// Reserved for the feature's geometry: an OSM tag with one of these
+		// keys would otherwise be overwritten by, or (a "point" tag on a way)
+		// be mistaken for, the geometry.
+		return "osm:" + key
 	}
 	return key
 }
